@@ -92,6 +92,10 @@ class GateTimeout(Exception):
     pass
 
 
+class OutsideTask(Exception):
+    pass
+
+
 class Recorder:
     """The event log of one run.  Sequence numbers = positions in `ev`, taken under one lock."""
 
@@ -339,9 +343,12 @@ class Gates:
         self.parked = {}       # who -> (kind, info)
         self.permit = set()
         self.done = {}         # who -> exception or None
+        self.known = set()     # the tasks the controller has launched
         self.timeout = timeout
 
     def arrive(self, who, kind, info):
+        if who not in self.known:
+            raise OutsideTask("a target / lock is used outside the block tasks (%s)" % kind)
         with self.cv:
             self.parked[who] = (kind, info)
             self.cv.notify_all()
@@ -469,6 +476,7 @@ class Stepper:
                 gates.finished(who, None)
             except BaseException as ex:  # noqa: BLE001
                 gates.finished(who, ex)
+        gates.known.add(who)
         t = threading.Thread(target=body, daemon=True)
         t.start()
 
@@ -488,7 +496,6 @@ class Stepper:
         return s[2]
 
     def after_write(self):
-        nxt = []
         if self.sm == "lazyret":
             return ["rd"]
         if self.lm == "user":
@@ -593,6 +600,8 @@ class Stepper:
             return (m.clause, m.detail)
         except GateTimeout as ex:
             return ("Gate:Hang", {"raised": str(ex)})
+        except OutsideTask as ex:
+            return ("Gate:OutsideTask", {"raised": str(ex)})
         except MachineryError:
             raise
         except Exception as ex:  # noqa: BLE001
@@ -633,4 +642,565 @@ Target.__getitem__ = _probe_guard(Target.__getitem__)
 
 
 def replay_behaviour(beh):
-    return Stepper(beh).run()
+    res = Stepper(beh).run()
+    if res is not None and res[0] == "Gate:Hang":      # confirm with a generous timeout: the machine may just be busy
+        res = Stepper(beh, timeout=60.0).run()
+    return res
+
+
+# ------------------------------------------------------------------ generators
+def _comp(rng, n, zero=False):
+    out, left = [], n
+    while left > 0:
+        c = rng.randint(1, left)
+        out.append(c)
+        left -= c
+    if n == 0:
+        out = [0]
+    elif zero:
+        out.insert(rng.randint(0, len(out)), 0)
+    return out
+
+
+def gen_call(rng):
+    """a random store call: 1-3 sources, 1-3 targets, 1-3 axes; sources sharing a target lie behind each other along
+    axis 0; sometimes the same array is stored twice; sometimes a zero-width chunk / a zero-length axis"""
+    nd = rng.choice([1, 1, 2, 2, 2, 3])
+    nsrc = rng.choice([1, 1, 2, 2, 3])
+    cap = {1: 6, 2: 4, 3: 3}[nd]
+    tshape, srcs, base = [], [], 0
+    for _ in range(nsrc):
+        r = rng.random()
+        if srcs and r < 0.12:
+            s0 = rng.choice(srcs)
+            tshape.append(list(tshape[s0["tgt"] - 1]))
+            srcs.append(dict(s0, tgt=len(tshape)))
+            continue
+        shape, start, step = [], [], []
+        share = srcs and r < 0.4
+        if share:
+            t = rng.randrange(len(tshape))
+            T = tshape[t]
+            for d in range(nd):
+                st = rng.choice([1, 1, 2])
+                if d == 0:
+                    a = T[0] + rng.choice([0, 0, 1])
+                    n = rng.randint(1, cap)
+                    T[0] = a + st * (n - 1) + 1 + rng.choice([0, 0, 1])
+                else:
+                    a = rng.randint(0, min(2, T[d] - 1))
+                    n = rng.randint(1, (T[d] - 1 - a) // st + 1)
+                shape.append(n)
+                start.append(a)
+                step.append(st)
+            tg = t + 1
+        else:
+            T = []
+            for d in range(nd):
+                n = 0 if rng.random() < 0.02 else rng.randint(1, cap)
+                a, st = rng.choice([0, 0, 1, 2]), rng.choice([1, 1, 1, 2, 3])
+                shape.append(n)
+                start.append(a)
+                step.append(st)
+                T.append(a + st * (max(n, 1) - 1) + 1 + rng.choice([0, 0, 1, 2]))
+            tshape.append(T)
+            tg = len(tshape)
+        zero = rng.random() < 0.08
+        zax = rng.randrange(nd)
+        chunks = [_comp(rng, n, zero and d == zax) for d, n in enumerate(shape)]
+        srcs.append({"shape": shape, "chunks": chunks, "tgt": tg, "start": start, "step": step, "base": base})
+        base += int(np.prod(shape)) if shape else 1
+    return {"tshape": tshape, "src": srcs}
+
+
+def gen_items(rng, n, prefix):
+    items = []
+    for i in range(n):
+        call = gen_call(rng)
+        sched = rng.choice(["sync", "threads"])
+        items.append({"id": "%s%d" % (prefix, i), "call": call, "lm": rng.choice(["none", "auto", "user", "user"]),
+                      "sm": rng.choice(list(SMODES)), "sched": sched, "nw": rng.choice([2, 3, 4]), "style": rng.randrange(6),
+                      "plain": rng.random() < 0.15, "seed": rng.randrange(1 << 30)})
+    return items
+
+
+def smode_of(rec):
+    return {(False, False): "now", (False, True): "nowret", (True, False): "lazy", (True, True): "lazyret"}[(rec["lazy"], rec["ret"])]
+
+
+def classify(rec, clause):
+    """signature = the input class of the failing run, not its numbers"""
+    if rec["kind"] == "npy":
+        return "npy:%s%s" % (clause, ":zero-chunk" if any(0 in c for c in rec["chunks"]) and min(rec["shape"]) > 0 else "")
+    call = rec["call"]
+    if dup_pairs(call) and clause in ("AllWritten", "FinalContent", "StoredOnReturn", "StoredOnCompute", "ReturnedContent"):
+        return "store:same-source-into-equal-targets"
+    if has_zero_chunk(call) and all(min(s["shape"] or [1]) > 0 for s in call["src"]):
+        return "store:%s:zero-chunk" % clause
+    return "store:%s:lock=%s:%s" % (clause, rec["lm"], smode_of(rec))
+
+
+def first_clause(text):
+    names = [x for x in text.strip("{} ").replace('"', "").split(", ") if x and x != "More"]
+    return names[0] if names else "Rejected"
+
+
+def nontrivial(call):
+    return n_blocks(call) >= 2 and any(any(a != 0 or st != 1 for a, st in zip(s["start"], s["step"])) or len(call["src"]) > 1
+                                       for s in call["src"])
+
+
+# ------------------------------------------------------------------ workers (run in forked children: they use threads)
+def _store_work(item):
+    return run_store(item)
+
+
+def _geom_work(item):
+    """a TLC-enumerated geometry case: reference guard, real run, comparison with the exported expectation"""
+    case, exp, variant, rid = item
+    call = case["call"]
+    ref = numpy_reference(call)
+    if ref != [list(x) for x in exp["exp"]]:
+        return ("GUARD", {"numpy": ref, "spec": exp["exp"]}, None)
+    lm = ("none", "auto", "user")[variant % 3]
+    sm = ("now", "lazyret", "nowret", "lazy")[(variant // 3) % 4]
+    sched = ("sync", "threads")[(variant // 12) % 2]
+    rec = run_store({"id": rid, "call": call, "lm": lm, "sm": sm, "sched": sched, "nw": 3, "style": variant % 6,
+                     "plain": variant % 7 == 3, "seed": variant})
+    clause = None
+    if rec["raised"]:
+        clause = "UnexpectedRaise"
+    elif rec["final"] != ref:
+        clause = "FinalContent"
+    elif rec["obs"] == "events":
+        # the writes seen are exactly the cells of the block writes of the specification (as a set of cells)
+        want = sorted((b["t"], p, v) for b in exp["blocks"] for p, v in zip(b["pos"], b["val"]))
+        have = sorted((e["t"], p, v) for e in rec["ev"] if e["a"] == "wb" for p, v in zip(e["pos"], e["val"]))
+        if want != have:
+            clause = "WriteOnce"
+    return (clause, rec, variant)
+
+
+def _npy_work(item):
+    import dask
+    import dask.array as da
+    from ..arrays import observe
+    case, exp, variant, rid, scratch = item
+    shape, chunks, axis = case["shape"], case["chunks"], case["axis"]
+    n = int(np.prod(shape))
+    rec = {"id": rid, "kind": "npy", "shape": shape, "chunks": chunks, "axis": axis, "raised": "",
+           "o": {"shape": [], "chunks": [], "lchunks": [], "cells": []}}
+    if list(exp["cells"]) != list(range(1, n + 1)) or sum(exp["axchunks"]) != shape[axis - 1]:
+        return ("GUARD", exp, None)
+    try:
+        x = da.from_array(np.arange(1, n + 1, dtype="i8").reshape(tuple(shape)), chunks=tuple(map(tuple, chunks)))
+        d = os.path.join(scratch, "npy-%s" % rid)
+        with dask.config.set(scheduler=("sync", "sync", "threads")[variant % 3]):
+            da.to_npy_stack(d if variant % 4 else d + os.sep, x, axis=axis - 1)
+        y = da.from_npy_stack(d, mmap_mode=(None, "r")[(variant // 2) % 2]) if variant % 5 else da.from_npy_stack(d)
+        obs, full = observe(y, whole_too=True)
+        blocks_chunks = obs["chunks"] if obs["blocksok"] else [[-1]]
+        rec["o"] = {"shape": obs["cshape"], "chunks": blocks_chunks, "lchunks": obs["chunks"],
+                    "cells": [int(v) for v in np.asarray(full).ravel()] if full is not None else []}
+        import shutil
+        shutil.rmtree(d, ignore_errors=True)
+    except Exception as ex:  # noqa: BLE001
+        rec["raised"] = "%s: %s" % (type(ex).__name__, str(ex)[:150])
+    clause = None
+    if rec["raised"]:
+        clause = "UnexpectedRaise"
+    elif rec["o"]["shape"] != list(exp["shape"]) or rec["o"]["cells"] != list(exp["cells"]):
+        clause = "Content"
+    elif len(rec["o"]["chunks"]) != len(shape) or rec["o"]["chunks"][axis - 1] != list(exp["axchunks"]):
+        clause = "AxisChunks"
+    return (clause, rec, variant)
+
+
+def _beh_work(beh):
+    return replay_behaviour(beh)
+
+
+# ------------------------------------------------------------------ TLC
+def combos(triples):
+    return TLA("{" + ", ".join('<<%d, "%s", "%s">>' % t for t in triples) + "}")
+
+
+def mc_model(ctx, calls, triples, keep):
+    return ctx.model(ctx.spec("array", "StoreMC.tla"), {"Calls": calls, "Combos": combos(triples), "KeepHist": keep},
+                     invariants=INVS, properties=PROPS if not keep else ["WrittenOnce"], spec="Spec", deadlock=True)
+
+
+def export_triples(calls, quick):
+    """the configurations whose complete behaviours are exported: everything under a lock (the lock serializes the
+    tasks: k! behaviours), without lock as far as the number of interleavings allows"""
+    out = []
+    for c, call in enumerate(calls, 1):
+        nb = n_blocks(call)
+        for lm in ("auto", "user"):
+            for sm in SMODES:
+                if nb <= 3 or (sm != "nowret" and nb <= 4 and not quick):
+                    out.append((c, lm, sm))
+        if nb <= 2:
+            out += [(c, "none", sm) for sm in SMODES]
+        elif nb == 3:
+            out += [(c, "none", sm) for sm in (("now", "lazy") if quick else ("now", "lazy", "nowret", "lazyret"))]
+        elif nb == 4 and not quick:
+            out += [(c, "none", "now")]
+    return out
+
+
+def validate(ctx, recs, report, shards=2):
+    """code -> spec: TLC decides every record; `report(record, clause_text)` for the rejected ones"""
+    from ..sidebyside import in_parallel
+    if not recs:
+        return
+    spec, cfg = ctx.model(ctx.spec("array", "StoreTrace.tla"), {})
+    shards = max(1, min(shards, len(recs) // 200 or 1))
+    clean = [{k: v for k, v in r.items() if not k.startswith("_")} for r in recs]
+    parts = [clean[i::shards] for i in range(shards)]
+    # ctx.tlc_validate names its trace file after len(ctx.tlc_runs): give every shard its own context slot
+    rejs = []
+    if shards == 1:
+        rejs = [ctx.tlc_validate(spec, parts[0], cfg, timeout=1500)]
+    else:
+        import copy
+        subs = []
+        for i, part in enumerate(parts):
+            sub = copy.copy(ctx)
+            sub.scratch = os.path.join(ctx.scratch, "shard%d-%d" % (i, len(ctx.tlc_runs)))
+            os.makedirs(sub.scratch, exist_ok=True)
+            sub.tlc_runs, sub.states, sub.transitions, sub.traces = [], 0, 0, 0
+            subs.append(sub)
+        rejs = in_parallel([lambda s=s, p=p: s.tlc_validate(spec, p, cfg, timeout=1500) for s, p in zip(subs, parts)])
+        for sub in subs:
+            ctx.tlc_runs += sub.tlc_runs
+            ctx.states += sub.states
+            ctx.transitions += sub.transitions
+            ctx.traces += sub.traces
+    byid = {r["id"]: r for r in recs}
+    if len(byid) != len(recs):
+        raise MachineryError("record ids are not unique")
+    for rej in rejs:
+        for rid, clauses in rej.items():
+            report(byid[rid], clauses[0])
+
+
+# ------------------------------------------------------------------ the check
+def explore(ctx, calls, triples_design, triples_export, plans):
+    """all TLC enumeration runs side by side -> (behaviours, geometry cases, npy cases)"""
+    from ..sidebyside import in_parallel
+    design = mc_model(ctx, calls, triples_design, False)
+    export = mc_model(ctx, calls, triples_export, True)
+    cas = ctx.model(ctx.spec("array", "StoreCasesMC.tla"), {"Plans": TLA(plans)}, invariants=["GeomOK", "NpyOK"])
+    res = in_parallel([lambda: ctx.tlc(design[0], design[1], label="design: all interleavings", timeout=2400),
+                       lambda: ctx.tlc_cases(export[0], export[1], label="design+behaviours", timeout=2400)[0],
+                       lambda: ctx.tlc_cases(cas[0], cas[1], label="cases: geometry + npy stack", timeout=2400)[0]])
+    behs = res[1]
+    for b in behs:
+        b["call"] = calls[b["c"] - 1]
+    return behs, [c for c in res[2] if c["c"]["fam"] == "geom"], [c for c in res[2] if c["c"]["fam"] == "npy"]
+
+
+def collect(behs, gitems, nitems, sitems, violation, count, procs=None):
+    """runs everything on the real code (in forked children, which may use threads); verdicts that are taken by
+    comparing with the exported specification state are reported at once, the records go to TLC -> records"""
+    recs = []
+    dbg = os.environ.get("VERIF_DEBUG")
+    t0 = time.time()
+
+    def lap(what):
+        nonlocal t0
+        if dbg:
+            print("  [%s: %.1fs]" % (what, time.time() - t0), flush=True)
+        t0 = time.time()
+    for beh, res in zip(behs, pmap(_beh_work, behs, procs=procs, chunk=16, always=True)):
+        count(("beh", beh["c"], beh["lm"], beh["sm"], [(e["a"], e["k"]) for e in beh["ev"]]), True)
+        if res is not None:
+            clause, detail = res
+            violation("replay:%s:lock=%s:%s" % (clause, beh["lm"], beh["sm"]),
+                      "%s: da.store does not follow the behaviour of the specification" % clause,
+                      {"kind": "behaviour", "beh": beh, "observed": detail})
+    lap("%d behaviours" % len(behs))
+    for (case, exp, variant, rid), (clause, rec, _v) in zip(gitems, pmap(_geom_work, gitems, procs=procs, chunk=32, always=True)):
+        if clause == "GUARD":
+            raise MachineryError("Store!Expected disagrees with NumPy assignment on %r: %r" % (case, rec))
+        count(("geom", case, variant), n_blocks(case["call"]) >= 2)
+        recs.append(rec)
+        if clause:
+            violation(classify(rec, clause), "%s: da.store disagrees with the specification on an enumerated region/chunking case" % clause,
+                      {"kind": "geom", "case": case, "expected": exp, "variant": variant, "observed": rec})
+    lap("%d geom" % len(gitems))
+    for (case, exp, variant, rid, _s), (clause, rec, _v) in zip(nitems, pmap(_npy_work, nitems, procs=procs, chunk=32, always=True)):
+        if clause == "GUARD":
+            raise MachineryError("npy-stack expectation of the specification is inconsistent on %r: %r" % (case, rec))
+        count(("npy", case, variant), len(case["chunks"][case["axis"] - 1]) >= 2)
+        recs.append(rec)
+        if clause:
+            violation(classify(rec, clause), "%s: the npy stack does not round-trip" % clause,
+                      {"kind": "npy", "case": case, "expected": exp, "variant": variant, "observed": rec})
+    lap("%d npy" % len(nitems))
+    for item, rec in zip(sitems, pmap(_store_work, sitems, procs=procs, chunk=32, always=True)):
+        count(("store", item["call"], item["lm"], item["sm"], item["sched"], item["plain"]), nontrivial(item["call"]))
+        rec["_item"] = item
+        recs.append(rec)
+    lap("%d random" % len(sitems))
+    return recs
+
+
+def decide(ctx, recs, violation):
+    """code -> spec: TLC decides the records"""
+    def report(rec, clause_text):
+        cl = first_clause(clause_text)
+        violation(classify(rec, cl), "TLC rejects a recorded %s run (%s)%s" % (rec["kind"], clause_text, (": " + rec["raised"]) if rec["raised"] else ""),
+                  {"kind": "record", "record": {k: v for k, v in rec.items() if k != "_item"}, "item": rec.get("_item")})
+    t0 = time.time()
+    validate(ctx, recs, report, shards=2 if len(recs) > 3000 else 1)
+    if os.environ.get("VERIF_DEBUG"):
+        print("  [validation of %d records: %.1fs]" % (len(recs), time.time() - t0), flush=True)
+
+
+def judge_all(ctx, behs, gitems, nitems, sitems, violation, count, procs=None):
+    recs = collect(behs, gitems, nitems, sitems, violation, count, procs)
+    decide(ctx, recs, violation)
+    return recs
+
+
+def plan(fam, shapes, starts=(0,), steps=(1,), pads=(0,), zero=False):
+    st = lambda v: "{" + ", ".join(str(x) for x in v) + "}"
+    return '[fam |-> "%s", shapes |-> {%s}, starts |-> %s, steps |-> %s, pads |-> %s, zero |-> %s]' % (
+        fam, ", ".join("<<" + ", ".join(map(str, sh)) + ">>" for sh in shapes), st(starts), st(steps), st(pads), "TRUE" if zero else "FALSE")
+
+
+def sizes(ctx):
+    q = ctx.quick
+    plans = [plan("geom", [(1,), (2,), (3,), (4,)], (0, 2), (1, 2), (0, 1), True),
+             plan("geom", [(2, 3), (3, 2)] if q else [(2, 3), (3, 2), (3, 3)], (0, 1), (1, 2), (0,) if q else (0, 1)),
+             plan("npy", [(1,), (2,), (3,), (4,), (5,), (2, 3), (3, 2), (3, 3), (2, 2, 2)] if q else
+                  [(1,), (2,), (3,), (4,), (5,), (2, 3), (3, 2), (3, 3), (5, 2), (2, 5), (4, 3), (2, 2, 2), (3, 2, 3), (2, 3, 3)])]
+    if not q:
+        plans.append(plan("geom", [(5,), (2, 2, 2)], (0, 1), (1, 2), (0,), True))
+    return "{" + ", ".join(plans) + "}"
+
+
+def run(ctx):
+    calls = MENU if ctx.quick else MENU + MENU_T
+    design = [(c, lm, sm) for c in range(1, len(calls) + 1) for lm in ("none", "auto", "user") for sm in SMODES]
+    export = export_triples(calls, ctx.quick)
+    behs, gcases, ncases = explore(ctx, calls, design, export, sizes(ctx))
+    cap_b, cap_g = ctx.pick(400, 6000), ctx.pick(1200, 10 ** 9)
+    sampled = False
+    nbeh = len(behs)
+    if len(behs) > cap_b:
+        # keep every behaviour under a lock (few), sample the lock-free interleavings
+        locked = [b for b in behs if b["lm"] != "none"]
+        free = [b for b in behs if b["lm"] == "none"]
+        if len(locked) > cap_b // 2:
+            locked = ctx.rng.sample(locked, cap_b // 2)
+        behs = locked + ctx.rng.sample(free, min(len(free), cap_b - len(locked)))
+        sampled = True
+    if len(gcases) > cap_g:
+        gcases = ctx.rng.sample(gcases, cap_g)
+        sampled = True
+    gitems = [(c["c"], c["e"], ctx.rng.randrange(168), "g%d" % i) for i, c in enumerate(gcases)]
+    nitems = [(c["c"], c["e"], ctx.rng.randrange(60), "n%d" % i, ctx.scratch) for i, c in enumerate(ncases)]
+    sitems = gen_items(ctx.rng, ctx.pick(400, 6000), "s")
+    recs = judge_all(ctx, behs, gitems, nitems, sitems, ctx.violation, ctx.count)
+    ctx.sample({"behaviour": {"call": behs[0]["call"], "lock": behs[0]["lm"], "mode": behs[0]["sm"],
+                              "steps": [(e["a"], e["k"]) for e in behs[0]["ev"]]}})
+    ctx.sample({"geometry_case": gitems[len(gitems) // 2][0], "expected_target": gitems[len(gitems) // 2][1]["exp"]})
+    ctx.sample({"npy_case": nitems[len(nitems) // 2][0]})
+    r0 = next(r for r in recs if r["kind"] == "store" and r["id"].startswith("s") and len(r["ev"]) > 6)
+    ctx.sample({"recorded_trace": {"call": r0["call"], "lock": r0["lm"], "lazy": r0["lazy"], "ret": r0["ret"], "events": r0["ev"][:14]}})
+    ctx.exhaustive = not sampled
+    ctx.rule = ("cases = complete behaviours of StoreMC replayed step by step + TLC-enumerated (shape, chunking, region) cases x a "
+                "(lock, mode, scheduler, target kind) variant + npy (shape, chunking, axis) cases + recorded random calls; "
+                "non-trivial = at least 2 blocks (and, for random calls, a proper region or several sources); distinct by case and variant")
+    ctx.extra["behaviours_enumerated_by_tlc"] = nbeh
+    ctx.extra["behaviours_replayed"] = len(behs)
+    ctx.extra["geometry_cases"] = len(gitems)
+    ctx.extra["npy_cases"] = len(nitems)
+    ctx.extra["recorded_random_calls"] = len(sitems)
+    ctx.assumptions = ["TLC evaluates the specification correctly", "the instrumented target reports the cells NumPy assignment touches",
+                       "sequence numbers are taken under one lock, so the logged order is a real order of the instrumented events",
+                       "NumPy per-block assignment is correct"]
+
+
+def replay(ctx, obj):
+    c = obj["case"]
+    kind = c["kind"]
+    if kind == "behaviour":
+        res = pmap(_beh_work, [c["beh"]], procs=2, always=True)[0]
+        print("behaviour:", c["beh"]["call"], c["beh"]["lm"], c["beh"]["sm"], [(e["a"], e["k"]) for e in c["beh"]["ev"]], "\nresult:", res)
+        return res is not None
+    if kind == "geom":
+        clause, rec, _ = pmap(_geom_work, [(c["case"], c["expected"], c["variant"], "g0")], procs=2, always=True)[0]
+    elif kind == "npy":
+        clause, rec, _ = pmap(_npy_work, [(c["case"], c["expected"], c["variant"], "n0", ctx.scratch)], procs=2, always=True)[0]
+    else:
+        old = c["record"]
+        if old["kind"] == "npy" or c.get("item") is None:
+            rec = old
+        else:
+            rec = pmap(_store_work, [c["item"]], procs=2, always=True)[0]
+        clause = None
+    rej = {}
+    spec, cfg = ctx.model(ctx.spec("array", "StoreTrace.tla"), {})
+    rej = ctx.tlc_validate(spec, [rec], cfg)
+    print("record:", rec, "\nclause:", clause, "\nTLC:", rej)
+    return bool(clause) or bool(rej)
+
+
+# ------------------------------------------------------------------ selftest
+class patched:
+    """In-memory mutant: re-compiles module.func with textual replacements (each must occur exactly once) inside
+    the module's namespace for the duration of the block.  /repo is never written."""
+
+    def __init__(self, module, name, repl, also=()):
+        import inspect
+        import textwrap
+        self.module, self.name, self.also = module, name, also
+        self.orig = getattr(module, name)
+        src = textwrap.dedent(inspect.getsource(self.orig))
+        for old, new in repl:
+            if src.count(old) != 1:
+                raise MachineryError("mutant anchor %r occurs %d times in %s.%s" % (old, src.count(old), module.__name__, name))
+            src = src.replace(old, new)
+        ns = {}
+        exec(compile(src, "<mutant of %s.%s>" % (module.__name__, name), "exec"), module.__dict__, ns)
+        self.fn = ns[name]
+
+    def __enter__(self):
+        setattr(self.module, self.name, self.fn)
+        self.saved = [(m, getattr(m, self.name)) for m in self.also]
+        for m in self.also:
+            setattr(m, self.name, self.fn)
+
+    def __exit__(self, *a):
+        setattr(self.module, self.name, self.orig)
+        for m, o in self.saved:
+            setattr(m, self.name, o)
+
+
+def mutants():
+    import dask.array as da
+    import dask.array.core as core
+    return [
+        ("load_store_chunk ignores the lock (no acquire / release)", lambda: patched(core, "load_store_chunk", [
+            ("    if lock:\n        lock.acquire()\n", ""), ("        if lock:\n            lock.release()\n", "        pass\n")])),
+        ("load_store_chunk drops the region offset of block writes", lambda: patched(core, "load_store_chunk", [
+            ("index = fuse_slice(region, index)", "index = index")])),
+        ("load_store_chunk skips one-element blocks (size != 0 -> size > 1)", lambda: patched(core, "load_store_chunk", [
+            ("x.size != 0", "x.size > 1")])),
+        ("store: load_stored defaults to return_stored (wrong operand)", lambda: patched(core, "store", [
+            ("load_stored = return_stored and not compute", "load_stored = return_stored")], also=[da])),
+        ("store: compute=False without return_stored computes at once", lambda: patched(core, "store", [
+            ("    if compute:\n        if not return_stored:", "    if compute or not return_stored:\n        if not return_stored:")], also=[da])),
+        ("store: every source is written through the first region", lambda: patched(core, "store", [
+            ("region=r,\n                lock=lock,\n                return_stored=return_stored,", "region=regions_list[0],\n                lock=lock,\n                return_stored=return_stored,")], also=[da])),
+        ("from_npy_stack reads the files in reverse order", lambda: patched(core, "from_npy_stack", [
+            ("for i in range(len(chunks[axis]))", "for i in reversed(range(len(chunks[axis])))")], also=[da])),
+        ("to_npy_stack writes merged chunks into the info file", lambda: patched(core, "to_npy_stack", [
+            ("meta = {\"chunks\": chunks,", "meta = {\"chunks\": tuple((sum(c),) for c in chunks),")], also=[da])),
+    ]
+
+
+def selftest(ctx):
+    import copy
+    ok = True
+    calls = MENU
+    triples = [(1, "user", "now"), (1, "user", "lazyret"), (1, "auto", "nowret"), (1, "none", "now"), (4, "none", "lazy"),
+               (4, "user", "nowret"), (5, "user", "lazy"), (3, "auto", "lazyret")]
+    plans = "{" + ", ".join([plan("geom", [(2,), (3,)], (0, 2), (1, 2), (0, 1)), plan("geom", [(2, 2)], (0, 1), (1,), (0, 1)),
+                             plan("npy", [(3,), (2, 3)])]) + "}"
+    behs, gcases, ncases = explore(ctx, calls, triples, triples, plans)
+    rng = random.Random(11)
+    behs = sorted(behs, key=lambda b: (b["c"], b["lm"], b["sm"], str(b["ev"])))
+    behs = rng.sample(behs, min(len(behs), 40))
+    gcases = rng.sample(gcases, min(len(gcases), 60))
+    gitems = [(c["c"], c["e"], rng.randrange(168), "g%d" % i) for i, c in enumerate(gcases)]
+    nitems = [(c["c"], c["e"], rng.randrange(60), "n%d" % i, ctx.scratch) for i, c in enumerate(ncases)]
+    sitems = [it for it in gen_items(rng, 90, "s") if not dup_pairs(it["call"])][:60]
+
+    def attempt(tag):
+        out = []
+        recs = collect(behs, gitems, nitems, sitems, lambda sig, what, rp: out.append(sig), lambda k, n: None, procs=4)
+        for r in recs:
+            r["id"] = "%s-%s" % (tag, r["id"])
+        return out, recs
+
+    runs = [("base", "unchanged tree", attempt("base"))]
+    for i, (name, make) in enumerate(mutants()):
+        with make():
+            runs.append(("m%d" % i, name, attempt("m%d" % i)))
+    # recorded traces, corrupted by hand
+    good = next(r for r in runs[0][2][1] if r["kind"] == "store" and r["lm"] == "user" and r["obs"] == "events" and not r["lazy"]
+                and sum(1 for e in r["ev"] if e["a"] == "wb") >= 2 and not r["raised"])
+    goodn = next(r for r in runs[0][2][1] if r["kind"] == "npy" and len(r["chunks"][r["axis"] - 1]) >= 2)
+
+    def corrupt(name, fn, base=good):
+        r = copy.deepcopy({k: v for k, v in base.items() if not k.startswith("_")})
+        r["id"] = "c-" + name
+        fn(r)
+        return r
+
+    def drop_exit(r):
+        del r["ev"][[i for i, e in enumerate(r["ev"]) if e["a"] == "we"][0]]
+
+    def bad_value(r):
+        [e for e in r["ev"] if e["a"] == "wb"][-1]["val"][0] += 1
+
+    def write_before_acquire(r):
+        i = [i for i, e in enumerate(r["ev"]) if e["a"] == "acq"][0]
+        j = [j for j, e in enumerate(r["ev"]) if e["a"] == "wb" and j > i][0]
+        r["ev"][i], r["ev"][j] = r["ev"][j], r["ev"][i]
+
+    def drop_block(r):
+        i = [i for i, e in enumerate(r["ev"]) if e["a"] == "wb"][0]
+        j = [j for j, e in enumerate(r["ev"]) if e["a"] == "we" and j > i][0]
+        del r["ev"][j], r["ev"][i]
+
+    def final_cell(r):
+        r["final"][0][0] += 5
+
+    def overlap(r):
+        i = [i for i, e in enumerate(r["ev"]) if e["a"] == "we"][0]
+        e = r["ev"].pop(i)
+        k = [k for k, x in enumerate(r["ev"]) if x["a"] == "wb" and k >= i][0]
+        r["ev"][k]["who"] = e["who"] + 50
+        nxt = [m for m, x in enumerate(r["ev"]) if x["a"] == "we" and m > k][0]
+        r["ev"][nxt]["who"] = e["who"] + 50
+        r["ev"].insert(k + 1, e)
+
+    def merged_axis(r):
+        a = r["axis"] - 1
+        r["o"]["chunks"][a] = [sum(r["o"]["chunks"][a])]
+        r["o"]["lchunks"][a] = [sum(r["o"]["lchunks"][a])]
+
+    hand = [(corrupt("untouched-copy", lambda r: None), False), (corrupt("dropped-write-exit", drop_exit), True),
+            (corrupt("corrupted-value", bad_value), True), (corrupt("write-before-acquire", write_before_acquire), True),
+            (corrupt("dropped-block-write", drop_block), True), (corrupt("corrupted-final-cell", final_cell), True),
+            (corrupt("two-writes-in-flight-under-a-lock", overlap), True),
+            (corrupt("npy-axis-chunks-merged", merged_axis, goodn), True)]
+    allrecs = [r for _t, _n, (_o, recs) in runs for r in recs] + [r for r, _w in hand]
+    rejected = {}
+    validate(ctx, allrecs, lambda rec, text: rejected.setdefault(rec["id"], text), shards=2)
+    base_sigs = set()
+    for tag, name, (out, recs) in runs:
+        tlc_rej = [r for r in recs if r["id"] in rejected]
+        sigs = sorted(set(out) | {classify(r, first_clause(rejected[r["id"]])) for r in tlc_rej})
+        if tag == "base":
+            base_sigs = set(sigs)
+            print("selftest baseline (unchanged tree): %d replay/case violations, %d records rejected by TLC of %d %s"
+                  % (len(out), len(tlc_rej), len(recs), sigs))
+            ok &= not sigs
+            continue
+        new = [s for s in sigs if s not in base_sigs]
+        print("selftest mutant [%s]: %s (replay/cases: %d, TLC rejects %d of %d records; e.g. %s)"
+              % (name, "DETECTED" if new else "MISSED", len(out), len(tlc_rej), len(recs), new[:3]))
+        ok &= bool(new)
+    for r, want in hand:
+        got = r["id"] in rejected
+        print("selftest trace [%s]: %s %s" % (r["id"][2:], "rejected" if got else "accepted", rejected.get(r["id"], "")))
+        ok &= got == want
+    print("selftest C29:", "OK" if ok else "FAILED")
+    return 0 if ok else 1
